@@ -321,6 +321,16 @@ func Render(h map[string]string) (map[string]string, []string) {
 		rg = "type tl { length \"2 | 12\"; } } typedef tl { type string { length \"1..3 | 7..9\"; }"
 	case "in-a-gap":
 		rg = "type tl { length \"5\"; } } typedef tl { type string { length \"1..3 | 7..9\"; }"
+	case "dec-bad-syntax":
+		rg = "type decimal64 { fraction-digits 2; range \"1.5..x\"; }"
+	case "dec-too-precise":
+		rg = "type decimal64 { fraction-digits 1; range \"1.25..3\"; }"
+	case "dec-outside-parent":
+		rg = "type decimal64 { fraction-digits 18; range \"1..10\"; }"
+	case "dec-derived-outside":
+		rg = "type td64 { range \"0..20\"; } } typedef td64 { type decimal64 { fraction-digits 2; range \"1..10\"; }"
+	case "length-descending":
+		rg = "type string { length \"5..1\"; }"
 	}
 	fmt.Fprintf(&m, "  leaf rg { %s }\n", rg)
 	ir := "type identityref { base i1; }"
@@ -827,7 +837,7 @@ func buildMutation(body []byte) (map[string]string, []string, []string, []*node)
 			owner = append(owner, f)
 		}
 	}
-	kws := []string{"leaf", "container", "list", "uses", "grouping", "typedef", "type", "augment", "deviation", "deviate", "choice", "case", "rpc", "input", "identity", "base", "include", "import", "belongs-to", "key", "default", "config", "path", "range", "enum", "Name", "zz:ext", "module", "submodule", "prefix"}
+	kws := []string{"leaf", "container", "list", "uses", "grouping", "typedef", "type", "augment", "deviation", "deviate", "choice", "case", "rpc", "input", "identity", "base", "include", "import", "belongs-to", "key", "default", "config", "path", "range", "length", "enum", "Name", "zz:ext", "module", "submodule", "prefix"}
 	args := []string{"", "x", "t1", "g", "m:c", "/t2:c", "/t:c/t:l", "..", "tt", "i:x", "self", "1..5", "not-supported", "nosuch", "a3:w"}
 	nmut := 1 + rng.Intn(4)
 	var ops []string
